@@ -838,7 +838,10 @@ class Facade:
     # constants
     @property
     def pi(self):
-        return cur().pi() if symbolic_mode() else math.pi
+        # pi is the double 3.141592653589793 (a rational) unless the harness asks for an opaque symbolic constant
+        if symbolic_mode() and cur().opts.get("symbolic_pi", False):
+            return cur().pi()
+        return math.pi
 
     newaxis = None
     inf = float("inf")
